@@ -55,6 +55,10 @@ impl repe::server::HandlerErased for OwnQuery {
             .build())
     }
 }
+#[derive(serde::Serialize, serde::Deserialize)]
+struct ParityP {
+    a: i64,
+}
 struct DeepRec;
 impl repe::RepeStruct for DeepRec {
     fn repe_handle(&mut self, segments: &[&str], _body: Option<Value>) -> Result<Option<Value>, repe::StructError> {
@@ -73,27 +77,38 @@ fn parity_router(hits: Arc<AtomicUsize>) -> repe::Router {
         .with_erased_handler("/own", Arc::new(OwnQuery(hits)))
         .with_json("/echo", |v: Value| Ok(v))
         .with_json_blocking("/blk", |v: Value| Ok(json!({"blk": v})))
+        .with_typed("/typed", |p: ParityP| Ok::<_, (repe::ErrorCode, String)>(ParityP { a: p.a + 1 }))
+        .with_typed_blocking("/typedblk", |p: ParityP| Ok::<_, (repe::ErrorCode, String)>(ParityP { a: p.a + 2 }))
         .with_json("/fail", |_v: Value| -> Result<Value, (repe::ErrorCode, String)> { Err((repe::ErrorCode::ApplicationErrorBase, "nope".into())) })
 }
 const DEEP: &str = "/deep/a/b/c/d/e/f/g/h/i/j/k/l/m/n/o/p/q/r/s/t";
-const PARITY_REQS: [(u64, &str, bool); 14] = [
+const PARITY_REQS: [(u64, &str, bool); 18] = [
     (1, "/own", false), (2, "/echo", false), (3, "/missing", false), (4, "/own", false), (5, "/fail", false), (6, "/echo", true), (7, "/own", false),
     (8, "/rawq", false), (9, "/blk", false), (10, "/nowhere/missing/path", false),
     (11, "/v10/whoami", false), (12, "/v1/whoami", false), (13, DEEP, false), (14, "/deep/x", false),
+    // typed routes given a JSON text framed as UTF-8 (body format 3) and as JSON (2), inline and off-reader
+    (15, "/typed", false), (16, "/typedblk", false), (17, "/typed#json", false), (18, "/typedblk#json", false),
 ];
 fn parity_request(id: u64, path: &str, notify: bool) -> repe::Message {
     // "/rawq": a request whose query is not a JSON pointer (rejected with InvalidQuery, query echoed)
     let qf = if path == "/rawq" { repe::QueryFormat::RawBinary } else { repe::QueryFormat::JsonPointer };
+    if let Some(route) = path.strip_suffix("#json") {
+        return repe::Message::builder().id(id).notify(notify).query_str(route).query_format(qf).body_json(&json!({"a": 40})).unwrap().build();
+    }
+    if path.starts_with("/typed") {
+        return repe::Message::builder().id(id).notify(notify).query_str(path).query_format(qf).body_bytes(b"{\"a\":40}".to_vec()).body_format(repe::BodyFormat::Utf8).build();
+    }
     let b = repe::Message::builder().id(id).notify(notify).query_str(path).query_format(qf);
     // the registry mounts are read (empty body), everything else carries a JSON body
     if path.starts_with("/v1") { b.build() } else { b.body_json(&json!({ "n": id })).unwrap().build() }
 }
-async fn parity_ws(router: repe::Router) -> Result<Vec<repe::Message>, String> {
+async fn parity_ws(router: repe::Router, unlimited: bool) -> Result<Vec<repe::Message>, String> {
     use futures_util::{SinkExt, StreamExt};
     use repe::tokio_tungstenite::tungstenite::Message as WsMessage;
     let listener = tokio::net::TcpListener::bind("127.0.0.1:0").await.map_err(|e| e.to_string())?;
     let addr = listener.local_addr().unwrap();
-    let shared = repe::WebSocketServer::new(router).into_shared();
+    // `unlimited`: with_offreader_limit(0) removes the cap; blocking routes are then served like any other
+    let shared = if unlimited { repe::WebSocketServer::new(router).with_offreader_limit(0).into_shared() } else { repe::WebSocketServer::new(router).into_shared() };
     let srv = tokio::spawn(async move {
         loop {
             let Ok((stream, _)) = listener.accept().await else { break };
@@ -176,7 +191,7 @@ fn parity_blocking(router: repe::Router) -> Result<Vec<repe::Message>, String> {
     Ok(out)
 }
 async fn server_query_parity() -> Result<String, String> {
-    let hits: Vec<Arc<AtomicUsize>> = (0..5).map(|_| Arc::new(AtomicUsize::new(0))).collect();
+    let hits: Vec<Arc<AtomicUsize>> = (0..6).map(|_| Arc::new(AtomicUsize::new(0))).collect();
     let plain = parity_async(repe::AsyncServer::new(parity_router(hits[0].clone()))).await?;
     let with_w = parity_async(repe::AsyncServer::new(parity_router(hits[1].clone())).write_timeout(Some(Duration::from_secs(10)))).await?;
     let with_rw = parity_async(
@@ -230,12 +245,18 @@ async fn server_query_parity() -> Result<String, String> {
     }
     let r = parity_router(hits[3].clone());
     let blocking = tokio::task::spawn_blocking(move || parity_blocking(r)).await.unwrap()?;
-    let ws = parity_ws(parity_router(hits[4].clone())).await?;
-    let expect_q: [&[u8]; 13] = [b"/chosen/by-handler", b"/echo", b"/missing", b"/chosen/by-handler", b"/fail", b"/chosen/by-handler", b"/rawq", b"/blk", b"/nowhere/missing/path", b"/v10/whoami", b"/v1/whoami", DEEP.as_bytes(), b"/deep/x"];
-    let expect_id = [1u64, 2, 3, 4, 5, 7, 8, 9, 10, 11, 12, 13, 14];
-    for (name, got) in [("async", &plain), ("async+write_timeout", &with_w), ("async+read+write_timeout", &with_rw), ("blocking", &blocking), ("WebSocket", &ws)] {
-        if got.len() != 13 {
-            return Err(format!("{name}: {} responses to 13 requests and one notify", got.len()));
+    let ws = parity_ws(parity_router(hits[4].clone()), false).await?;
+    let ws_unlimited = parity_ws(parity_router(hits[5].clone()), true).await?;
+    let expect_q: [&[u8]; 17] = [b"/chosen/by-handler", b"/echo", b"/missing", b"/chosen/by-handler", b"/fail", b"/chosen/by-handler", b"/rawq", b"/blk", b"/nowhere/missing/path", b"/v10/whoami", b"/v1/whoami", DEEP.as_bytes(), b"/deep/x", b"/typed", b"/typedblk", b"/typed", b"/typedblk"];
+    let expect_id = [1u64, 2, 3, 4, 5, 7, 8, 9, 10, 11, 12, 13, 14, 15, 16, 17, 18];
+    for (name, got) in [("async", &plain), ("async+write_timeout", &with_w), ("async+read+write_timeout", &with_rw), ("blocking", &blocking), ("WebSocket", &ws), ("WebSocket, off-reader cap removed", &ws_unlimited)] {
+        if got.len() != 17 {
+            return Err(format!("{name}: {} responses to 17 requests and one notify", got.len()));
+        }
+        for (i, want) in [(13usize, 41i64), (14, 42), (15, 41), (16, 42)] {
+            if got[i].header.ec != 0 || got[i].json_body::<Value>().ok().and_then(|v| v["a"].as_i64()) != Some(want) {
+                return Err(format!("{name}: typed route {:?} given {{\"a\":40}} framed as {} answered ec {} body {:?}", String::from_utf8_lossy(expect_q[i]), if i < 15 { "UTF-8 (body format 3)" } else { "JSON" }, got[i].header.ec, String::from_utf8_lossy(&got[i].body)));
+            }
         }
         if got[9].header.ec != 0 || got[9].json_body::<Value>().ok() != Some(json!("ten")) || got[10].json_body::<Value>().ok() != Some(json!("one")) {
             return Err(format!("{name}: mounts /v1 and /v10 answered /v10/whoami with ec {} body {:?} and /v1/whoami with {:?}", got[9].header.ec, String::from_utf8_lossy(&got[9].body), String::from_utf8_lossy(&got[10].body)));
@@ -243,7 +264,7 @@ async fn server_query_parity() -> Result<String, String> {
         if got[11].header.ec != 0 || got[11].json_body::<Value>().ok() != Some(json!({"segments": 20, "last": "t"})) {
             return Err(format!("{name}: a 20-segment path below a struct mount was answered with ec {} body {:?}", got[11].header.ec, String::from_utf8_lossy(&got[11].body)));
         }
-        for i in 0..13 {
+        for i in 0..17 {
             if got[i].header.id != expect_id[i] {
                 return Err(format!("{name}: response {i} carries id {} (expected {})", got[i].header.id, expect_id[i]));
             }
@@ -263,8 +284,8 @@ async fn server_query_parity() -> Result<String, String> {
     if ws[6].header.ec != repe::ErrorCode::InvalidQuery as u32 {
         return Err(format!("a query that is not a JSON pointer was answered with ec {}", ws[6].header.ec));
     }
-    for i in 0..13 {
-        for (name, got) in [("async", &plain), ("async+write_timeout", &with_w), ("async+read+write_timeout", &with_rw), ("WebSocket", &ws)] {
+    for i in 0..17 {
+        for (name, got) in [("async", &plain), ("async+write_timeout", &with_w), ("async+read+write_timeout", &with_rw), ("WebSocket", &ws), ("WebSocket, off-reader cap removed", &ws_unlimited)] {
             if fields(&got[i]) != fields(&blocking[i]) {
                 return Err(format!("response {i} differs between {name} and blocking TCP: {:?} vs {:?}", fields(&got[i]), fields(&blocking[i])));
             }
@@ -293,7 +314,7 @@ async fn server_query_parity() -> Result<String, String> {
             return Err(format!("the /own handler ran {} times for 3 requests", h.load(Ordering::SeqCst)));
         }
     }
-    Ok("13 responses identical on 5 server configurations (blocking TCP, async TCP x3, WebSocket inline and off-reader)".into())
+    Ok("17 responses identical on 6 server configurations (blocking TCP, async TCP x3, WebSocket inline and off-reader with the default and with no off-reader cap)".into())
 }
 
 // ---------------------------------------------------------------------------------------------
